@@ -104,3 +104,118 @@ Definition sweeps_C17 : list disagreement :=
   sweep_iterator_GetNext ++ sweep_iterator_GetPrevious ++ sweep_iterator_HasNext ++ sweep_iterator_HasPrevious ++
   sweep_iterator_ToStart ++ sweep_iterator_ToEnd ++ sweep_iterator_ToSlot ++ sweep_iterator_GetSlot ++
   sweep_iterator_GetSize ++ sweep_iterator_IsEmpty ++ sweep_iteratorClass_MakeFromArray.
+
+(* ---------- C01: collection/array.go, collection/list.go ---------- *)
+Definition lists : list (list Z) := map vals sizes.                       (* [], [11], [11;22], .. *)
+Definition srcs : list (list Z) := map (fun n => map (fun x => x + 1000) (vals n)) (upto 6).
+Definition aval (l : list Z) : val Z := arr_val l.
+Definition lval (l : list Z) : val Z := lst_val VNil l.
+Definition opt_pos (recv : val Z) (o : option nat) : outcome :=
+  match o with Some k => Ret (VInt (Z.of_nat k), recv) | None => Panic end.
+Definition of_out {X} (f : X -> outcome) (o : out X) : outcome :=
+  match o with Ret x => f x | Panic => Panic | Hang => Hang end.
+
+Definition sweep_array_toZeroBased := flat_map (fun l => flat_map (fun i =>
+  cmp id_toZeroBased (aval l) [VInt i] (opt_pos (aval l) (pos (length l) i))) indices) lists.
+Definition sweep_array_GetValue := flat_map (fun l => flat_map (fun i =>
+  cmp id_GetValue (aval l) [VInt i] (of_out (fun v => Ret (VElem v, aval l)) (get_value 0 l i))) indices) lists.
+Definition sweep_array_SetValue := flat_map (fun l => flat_map (fun i =>
+  cmp id_SetValue (aval l) [VInt i; VElem 9] (of_out (fun l' => ret_unit (aval l')) (set_value l i 9))) indices) lists.
+Definition sweep_array_GetValues := flat_map (fun l => flat_map (fun i => flat_map (fun j =>
+  cmp id_GetValues (aval l) [VInt i; VInt j] (of_out (fun r => Ret (aval r, aval l)) (get_values l i j))) indices) indices) lists.
+Definition sweep_array_SetValues := flat_map (fun l => flat_map (fun i => flat_map (fun s =>
+  cmp id_SetValues (aval l) [VInt i; aval s] (of_out (fun l' => ret_unit (aval l')) (set_values l i s))) srcs) indices) lists.
+Definition sweep_array_GetSize := flat_map (fun l =>
+  cmp id_GetSize (aval l) [] (Ret (VInt (Z.of_nat (length l)), aval l))) lists.
+Definition sweep_array_IsEmpty := flat_map (fun l =>
+  cmp id_IsEmpty (aval l) [] (Ret (VBool (Nat.eqb (length l) 0), aval l))) lists.
+Definition sweep_array_AsArray := flat_map (fun l =>
+  cmp id_AsArray (aval l) [] (Ret (VSlice (elems l), aval l))) lists.
+Definition sweep_array_GetIterator := flat_map (fun l =>
+  cmp id_GetIterator (aval l) [] (Ret (irep (it_make l), aval l))) lists.
+Definition sweep_arrayClass_Make := flat_map (fun n =>
+  cmp id_Make (VObj id_arrayClass_ []) [VInt (Z.of_nat n)] (Ret (aval (repeat 0 n), VObj id_arrayClass_ []))) sizes.
+
+Definition sweep_list_toNormalized := flat_map (fun l => flat_map (fun i =>
+  cmp id_toNormalized (lval l) [VInt i] (opt_pos (lval l) (option_map S (pos (length l) i)))) indices) lists.
+Definition sweep_list_validateSlot := flat_map (fun l => flat_map (fun s =>
+  cmp id_validateSlot (lval l) [VInt (Z.of_nat s)] (if Nat.ltb (length l) s then Panic else ret_unit (lval l))) (upto 7)) lists.
+Definition sweep_list_GetValue := flat_map (fun l => flat_map (fun i =>
+  cmp id_GetValue (lval l) [VInt i] (of_out (fun v => Ret (VElem v, lval l)) (get_value 0 l i))) indices) lists.
+Definition sweep_list_GetValues := flat_map (fun l => flat_map (fun i => flat_map (fun j =>
+  cmp id_GetValues (lval l) [VInt i; VInt j] (of_out (fun r => Ret (aval r, lval l)) (get_values l i j))) indices) indices) lists.
+Definition sweep_list_SetValue := flat_map (fun l => flat_map (fun i =>
+  cmp id_SetValue (lval l) [VInt i; VElem 9] (of_out (fun l' => ret_unit (lval l')) (set_value l i 9))) indices) lists.
+Definition sweep_list_SetValues := flat_map (fun l => flat_map (fun i => flat_map (fun s =>
+  cmp id_SetValues (lval l) [VInt i; aval s] (of_out (fun l' => ret_unit (lval l')) (set_values l i s))) srcs) indices) lists.
+Definition sweep_list_InsertValue := flat_map (fun l => flat_map (fun s =>
+  cmp id_InsertValue (lval l) [VInt (Z.of_nat s); VElem 9] (of_out (fun l' => ret_unit (lval l')) (insert_value l s 9))) (upto 7)) lists.
+Definition sweep_list_InsertValues := flat_map (fun l => flat_map (fun s => flat_map (fun src =>
+  cmp id_InsertValues (lval l) [VInt (Z.of_nat s); aval src] (of_out (fun l' => ret_unit (lval l')) (insert_values l s src))) srcs) (upto 7)) lists.
+Definition sweep_list_AppendValue := flat_map (fun l =>
+  cmp id_AppendValue (lval l) [VElem 9] (ret_unit (lval (append_value l 9)))) lists.
+Definition sweep_list_AppendValues := flat_map (fun l => flat_map (fun src =>
+  cmp id_AppendValues (lval l) [aval src] (ret_unit (lval (append_values l src)))) srcs) lists.
+Definition sweep_list_RemoveValue := flat_map (fun l => flat_map (fun i =>
+  cmp id_RemoveValue (lval l) [VInt i] (of_out (fun r => Ret (VElem (fst r), lval (snd r))) (remove_value 0 l i))) indices) lists.
+Definition sweep_list_RemoveValues := flat_map (fun l => flat_map (fun i => flat_map (fun j =>
+  cmp id_RemoveValues (lval l) [VInt i; VInt j]
+      (of_out (fun r => Ret (aval (fst r), lval (snd r))) (remove_values l i j))) indices) indices) lists.
+Definition sweep_list_RemoveAll := flat_map (fun l =>
+  cmp id_RemoveAll (lval l) [] (ret_unit (lval []))) lists.
+Definition sweep_list_GetSize := flat_map (fun l =>
+  cmp id_GetSize (lval l) [] (Ret (VInt (Z.of_nat (length l)), lval l))) lists.
+Definition sweep_list_IsEmpty := flat_map (fun l =>
+  cmp id_IsEmpty (lval l) [] (Ret (VBool (Nat.eqb (length l) 0), lval l))) lists.
+Definition sweep_list_AsArray := flat_map (fun l =>
+  cmp id_AsArray (lval l) [] (Ret (VSlice (elems l), lval l))) lists.
+Definition sweep_list_GetIterator := flat_map (fun l =>
+  cmp id_GetIterator (lval l) [] (Ret (irep (it_make l), lval l))) lists.
+
+(* the functions that C13 rests on as well *)
+Definition sweeps_seq : list disagreement :=
+  sweep_iterator_GetNext ++ sweep_iterator_HasNext ++ sweep_iteratorClass_MakeFromArray ++
+  sweep_array_toZeroBased ++ sweep_array_GetValue ++ sweep_array_SetValue ++ sweep_array_GetSize ++
+  sweep_array_IsEmpty ++ sweep_array_AsArray ++ sweep_array_GetIterator ++ sweep_arrayClass_Make ++
+  sweep_list_toNormalized ++ sweep_list_validateSlot ++ sweep_list_GetValue ++ sweep_list_InsertValue ++
+  sweep_list_RemoveValue ++ sweep_list_RemoveAll ++ sweep_list_GetSize ++ sweep_list_IsEmpty ++
+  sweep_list_AsArray ++ sweep_list_GetIterator.
+Definition sweeps_C01 : list disagreement :=
+  sweeps_seq ++ sweep_array_GetValues ++ sweep_array_SetValues ++ sweep_list_GetValues ++ sweep_list_SetValue ++
+  sweep_list_SetValues ++ sweep_list_InsertValues ++ sweep_list_AppendValue ++ sweep_list_AppendValues ++
+  sweep_list_RemoveValues.
+
+(* ---------- C13: collection/stack.go ---------- *)
+Definition sval (cap : nat) (l : list Z) : val Z := stk_val VNil VNil (Z.of_nat cap) l.
+Definition stacks : list (nat * list Z) := flat_map (fun cap => map (fun n => (cap, vals n)) (upto cap)) (upto 4).
+Definition sweep_stack_AddValue := flat_map (fun s =>
+  cmp id_AddValue (sval (fst s) (snd s)) [VElem 9]
+      (of_out (fun l' => ret_unit (sval (fst s) l')) (stack_push (fst s) (snd s) 9))) stacks.
+Definition sweep_stack_RemoveTop := flat_map (fun s =>
+  cmp id_RemoveTop (sval (fst s) (snd s)) []
+      (of_out (fun r => Ret (VElem (fst r), sval (fst s) (snd r))) (stack_pop (snd s)))) stacks.
+Definition sweep_stack_RemoveAll := flat_map (fun s =>
+  cmp id_RemoveAll (sval (fst s) (snd s)) [] (ret_unit (sval (fst s) []))) stacks.
+Definition sweep_stack_GetCapacity := flat_map (fun s =>
+  cmp id_GetCapacity (sval (fst s) (snd s)) [] (Ret (VInt (Z.of_nat (fst s)), sval (fst s) (snd s)))) stacks.
+Definition sweep_stack_GetSize := flat_map (fun s =>
+  cmp id_GetSize (sval (fst s) (snd s)) [] (Ret (VInt (Z.of_nat (length (snd s))), sval (fst s) (snd s)))) stacks.
+Definition sweep_stack_IsEmpty := flat_map (fun s =>
+  cmp id_IsEmpty (sval (fst s) (snd s)) [] (Ret (VBool (Nat.eqb (length (snd s)) 0), sval (fst s) (snd s)))) stacks.
+Definition sweep_stack_AsArray := flat_map (fun s =>
+  cmp id_AsArray (sval (fst s) (snd s)) [] (Ret (VSlice (elems (snd s)), sval (fst s) (snd s)))) stacks.
+(* a stack is a history: push 9 then pop must give 9 back (when there is room) — found here as a
+   disagreement of the second call when AddValue is wrong in a way a single call does not show *)
+Definition sweep_stack_push_pop := flat_map (fun s =>
+  match gen (sval (fst s) (snd s)) id_AddValue [VElem 9] with
+  | Ret (_, r) =>
+    cmp id_RemoveTop r []
+        (match stack_push (fst s) (snd s) 9 with
+         | Ret l' => of_out (fun x => Ret (VElem (fst x), sval (fst s) (snd x))) (stack_pop l')
+         | _ => Hang end)
+  | _ => []
+  end) stacks.
+
+Definition sweeps_C13 : list disagreement :=
+  sweep_stack_AddValue ++ sweep_stack_RemoveTop ++ sweep_stack_RemoveAll ++ sweep_stack_GetCapacity ++
+  sweep_stack_GetSize ++ sweep_stack_IsEmpty ++ sweep_stack_AsArray ++ sweep_stack_push_pop ++ sweeps_seq.
